@@ -21,6 +21,9 @@ def build(repo, tier, seed):
         r = PropResult([], undecided=[("deductive", f"contracts not applicable to this source ({type(ex).__name__}: {ex}); only the bounded enumeration ran")])
     bb = run.rt_call("C18", "backoff_sequences", {"seed": seed, "maxlen": 12 if tier == "quick" else 14})
     r.bounded.append(bb if "name" in bb else {"name": "backoff_sequences", "error": bb.get("error", bb)})
+    # the manager-level timing (which the per-call contracts do not decide) on a virtual clock: bounded, labelled as such
+    bb = run.rt_call("C18", "manager_virtual_time", {"seed": seed, "maxlen": 6 if tier == "quick" else 8})
+    r.bounded.append(bb if "name" in bb else {"name": "manager_virtual_time", "error": bb.get("error", bb)})
     return r
 
 def deductive(repo, tier, seed):
@@ -153,5 +156,6 @@ def deductive(repo, tier, seed):
                      "the connection factory either returns a connection, raises an Exception, or is cancelled"],
         explanation="C18: ghost failure counter n on the strategy object: invariant _delay == pow2(n-1) (0 for n == 0), failure/reset/current_delay_sec contracts for every max_delay >= 1 and every n (unbounded, "
                     "pow2 recursive); _get_back_off_time, the loss breaker update and the sequential contract of _try_connect (sleep exactly the back-off time before the single factory call; failure()/reset() exactly once).")
-    r.not_decided = ["manager-level timing on a virtual clock (when connect_loop's tasks run relative to each other) depends on asyncio scheduling: not decided by per-call contracts"]
+    r.not_decided = ["manager-level timing (when connect_loop's tasks run relative to each other) depends on asyncio scheduling: not decided by per-call contracts; covered by the BOUNDED run manager_virtual_time "
+                     "(the real connect_loop on a real event loop with a virtual clock, every attempt-outcome sequence up to a length)"]
     return r
